@@ -256,7 +256,7 @@ ssize_t
 flenp_buffer_to_sink(const LengthPrefixKind k, Sink *sink, ByteBuffer *b)
 {
     return flenp_memory_to_sink(k, sink, b->data + b->offset,
-                                byte_buffer_avail(b));
+                                byte_buffer_rest(b));
 }
 
 ssize_t
